@@ -40,9 +40,17 @@ def check(run):
         run.guard("C01.4.token-boundary", cfg, lambda: rule_boundary(run, F, cfg))
         run.guard("C01.5.routing-total", cfg, lambda: rule_routing(run, F, cfg))
         run.guard("C01.1.token-source", cfg + "/removeparam", lambda: rule_removeparam_tokens(run, F, cfg))
+        run.guard("C01.1.token-source", cfg + "/scheme", lambda: rule_scheme_tokens(run, F, cfg))
+        run.guard("C01.1.token-source", cfg + "/sources", lambda: rule_token_sources(run, F, cfg))
+        run.guard("C01.6.rule-matcher", cfg, lambda: rule_matches_conjunction(run, F, cfg))
+        run.guard("C01.4.token-boundary", cfg + "/tokenizer", lambda: rule_tokenizer_table(run, F, cfg))
         b = run.borrow("C05", why="a fused rule must still be found for every request one of its members matches")
         run.guard("C01.via.C05.1.fusion-key", cfg, lambda: _C05.rule_key(b, F, cfg))
         run.guard("C01.via.C05.2.bucket-preservation", cfg, lambda: _C05.rule_bucket(b, F, cfg))
+        from . import C04 as _C04   # lazy: C04 imports sibling modules too
+        b4 = run.borrow("C04", why="the engine verdict is the precedence formula over the per-list hits")
+        run.guard("C01.via.C04.2.precedence", cfg, lambda: _C04.rule_precedence(b4, F, cfg))
+        run.guard("C01.via.C04.1.routing", cfg, lambda: _C04.rule_routing(b4, F, cfg))
 
 
 def rule_store(run, F, cfg):
@@ -365,3 +373,176 @@ def rule_removeparam_tokens(run, F, cfg):
            "mask.contains(IS_REMOVEPARAM), modifier_option being Some and VALID_PARAM.is_match (a redirect name "
            "or csp text used as bucket key would hide the rule from every request)",
            site=g.loc(sites[0][0]) if sites else g.loc(0), config=cfg, detail=detail)
+
+
+def rule_scheme_tokens(run, F, cfg):
+    """the optional protocol token: `http` only for rules that apply to http and not https (every URL such a
+    rule matches starts with the token `http`), `https` symmetrically; anything else hides the rule from
+    requests of the other scheme whenever the protocol token is the bucket key (token-less patterns)"""
+    g = F.fn("filters::network::NetworkFilter::get_tokens")
+    from analysis.guards import dominating_conditions as _dc
+    seen = {}
+    for b, t in g.calls(r"^utils::fast_hash$"):
+        lit = g.vexpr_operand(t["args"][0])
+        if not re.match(r'^"[a-z]+"$', lit):
+            continue
+        c = {re.sub(r"filters::network::NetworkFilterMaskHelper::", "", k): v
+             for k, v in _dc(g, b, render=g.vexpr_operand).items()}
+        seen[lit.strip('"')] = (c.get("for_http($self)"), c.get("for_https($self)"), g.loc(b))
+    want = {"http": (1, 0), "https": (0, 1)}
+    for lit, (h, hs) in want.items():
+        got = seen.get(lit)
+        run.ob("C01.1.token-source", f"scheme-token:{lit}", got is not None and got[:2] == (h, hs),
+               f"get_tokens adds the protocol token `{lit}` exactly under for_http={h} and for_https={hs} "
+               f"(found {got[:2] if got else None})", site=got[2] if got else g.loc(0), config=cfg)
+    extra = sorted(set(seen) - set(want))
+    run.ob("C01.1.token-source", "scheme-token:no-others", not extra,
+           f"no other literal token is added to a rule's tokens ({extra})", config=cfg)
+
+
+def rule_tokenizer_table(run, F, cfg):
+    """fast_tokenizer_no_regex as a table over its state variables (variable-level rendering): a token is
+    emitted only when neither neighbour is `*`, and `preceding_ch` is refreshed at every non-token character"""
+    t = F.fn("utils::fast_tokenizer_no_regex")
+    from analysis.guards import dominating_conditions as _dc
+    pushes = t.calls(r"^std::vec::Vec::push$")
+    STAR_PREV = "std::cmp::PartialEq::ne($preceding_ch, std::option::Option::Some{0: '*'})"
+    rows = []
+    for b, tm in pushes:
+        c = _dc(t, b, render=t.vexpr_operand)
+        in_loop = any(k.startswith("discr(") and "next(" in k and v == 1 for k, v in c.items())
+        rows.append((b, in_loop, c))
+    ok = len(rows) == 2 and sorted(r[1] for r in rows) == [False, True]
+    detail = []
+    for b, in_loop, c in rows:
+        prev = c.get(STAR_PREV) == 1
+        inside = c.get("$inside") == 1
+        if in_loop:
+            nxt = c.get("($c Ne '*')") == 1
+            sep = any("$is_allowed_code" in k and v == 0 for k, v in c.items())
+            good = prev and nxt and inside and sep
+        else:
+            good = prev and inside and c.get("$skip_last_token") == 0
+        detail.append(f"{t.loc(b)}: in_loop={in_loop} prev!=*:{prev} inside:{inside} ok={good}")
+        ok = ok and good
+    run.ob("C01.4.token-boundary", "token-emission-table", ok,
+           "fast_tokenizer_no_regex emits a token (a) inside the loop only at a non-token character, while inside a "
+           "token, when that character is not `*` and the character before the token was not `*`; (b) after the loop "
+           "only when !skip_last_token, inside a token, and the character before the token was not `*`",
+           site=t.loc(0), config=cfg, detail="; ".join(detail))
+    # preceding_ch = Some(c) on every non-token character (both the token-ending and the idle branch)
+    upd = []
+    for b, i, st in t.statements():
+        if st["k"] == "assign" and not st["pl"]["p"] and t.varnames.get(st["pl"]["l"]) == "preceding_ch":
+            val = t.vexpr_rvalue(st["rv"])
+            c = _dc(t, b, render=t.vexpr_operand)
+            sep = [v for k, v in c.items() if "$is_allowed_code" in k]
+            upd.append((val.startswith("std::option::Option::Some{0: "), sep[0] if sep else None, c.get("$inside")))
+    # the token state machine: inside / start
+    st_upd = []
+    for b, i, st in t.statements():
+        if st["k"] == "assign" and not st["pl"]["p"] and t.varnames.get(st["pl"]["l"]) in ("inside", "start"):
+            c = _dc(t, b, render=t.vexpr_operand)
+            sep = [v for k, v in c.items() if "$is_allowed_code" in k]
+            st_upd.append((t.varnames[st["pl"]["l"]], t.vexpr_rvalue(st["rv"]), sep[0] if sep else None, c.get("$inside")))
+    want_st = sorted([("inside", "false", None, None), ("start", "0", None, None), ("inside", "true", 1, 0),
+                      ("start", "$i", 1, 0), ("inside", "false", 0, 1)], key=str)
+    run.ob("C01.4.token-boundary", "token-state-machine", sorted(st_upd, key=str) == want_st,
+           "a token starts (inside = true, start = i) at a token character while outside one and ends (inside = false) "
+           f"at a non-token character while inside one; no other update ({st_upd})", site=t.loc(0), config=cfg)
+    want = sorted([(False, None, None), (True, 0, 0), (True, 0, 1)], key=str)
+    run.ob("C01.4.token-boundary", "preceding-char-tracking", sorted(upd, key=str) == want,
+           "preceding_ch starts as None and is set to Some(current char) at every non-token character, whether or "
+           f"not a token just ended (updates: {upd})", site=t.loc(0), config=cfg)
+
+
+def rule_token_sources(run, F, cfg):
+    """Every token a rule can be indexed under (every write into get_tokens' `tokens`, and the per-domain
+    dispatch) is one of the enumerated sources, each under the guard that makes the token occur in every
+    request the rule can match. An unknown source fails closed."""
+    g = F.fn("filters::network::NetworkFilter::get_tokens")
+    from analysis.guards import dominating_conditions as _dc
+
+    def sh(k):
+        return re.sub(r"filters::network::(NetworkFilterMaskHelper::|NetworkFilterMask::|_::)?", "", k)
+
+    SOURCES = [
+        # (name, regex over the call, [(regex over a condition, value)] that must all dominate, why)
+        ("single-domain", r"^std::vec::Vec::push\(\$tokens, \$domain\)$",
+         [(r"PartialEq>::eq\(std::option::Option::map\(std::option::Option::as_ref\(\$self\.opt_domains\), closure\[.*\]\(\)\), std::option::Option::Some\{0: 1\}\)$", 1)],
+         "the only positive domain: every request the rule matches comes from it (with two domains the first one "
+         "is absent from requests of the second)"),
+        ("pattern", r"^std::vec::Vec::append\(\$tokens, \$filter_tokens\)$", [(r"^is_complete_regex\(\$self\)$", 0)],
+         "tokens of a plain / wildcard pattern (boundaries: C01.4)"),
+        ("hostname", r"^std::vec::Vec::append\(\$tokens, \$hostname_tokens\)$", [(r"^contains\(\$self\.mask, IS_HOSTNAME_REGEX\)$", 0)],
+         "labels of a literal hostname (a hostname with wildcards yields fragments)"),
+        ("removeparam", r"^std::vec::Vec::append\(\$tokens, \$param_tokens\)$", [(r"^contains\(\$self\.mask, IS_REMOVEPARAM\)$", 1)],
+         "see removeparam-name-tokens"),
+        ("scheme", r'^std::vec::Vec::push\(\$tokens, utils::fast_hash\("https?"\)\)$', [], "see scheme-token:*"),
+    ]
+    seen = {}
+    unknown = []
+    for b, t in g.calls(r"^std::vec::Vec::(push|append|extend|extend_from_slice|insert)$"):
+        e = sh(g.vexpr_call(t))
+        if not re.search(r"\(\$tokens\b", e):
+            continue
+        c = {sh(k): v for k, v in _dc(g, b, render=g.vexpr_operand).items()}
+        for name, rx, need, why in SOURCES:
+            if re.search(rx, e):
+                ok = all(any(re.search(nr, k) and v == nv for k, v in c.items()) for nr, nv in need)
+                seen.setdefault(name, []).append((ok, g.loc(b), why))
+                break
+        else:
+            unknown.append((e[:120], g.loc(b)))
+    for name, rx, need, why in SOURCES:
+        got = seen.get(name, [])
+        run.ob("C01.1.token-source", f"source:{name}", bool(got) and all(o for o, _, _ in got),
+               f"get_tokens source `{name}`: {why}; required guard {need} "
+               + ("holds" if got and all(o for o, _, _ in got) else "does NOT dominate the write (or the source is gone)"),
+               site=got[0][1] if got else g.loc(0), config=cfg)
+    run.ob("C01.1.token-source", "source:no-unknown", not unknown,
+           f"no other write into the rule's token vector ({unknown[:2]})", status=None if not unknown else "UNDISCHARGED",
+           config=cfg)
+    # the closure in the single-domain guard is the list length
+    cl = [c for c in F.closures_of(g.name) if c.calls(r"^std::vec::Vec::len$")]
+    run.ob("C01.1.token-source", "single-domain:len", len(cl) >= 1,
+           "the single-domain test compares the number of positive domains (Vec::len) with 1", config=cfg)
+    # per-domain dispatch: only when there are positive domains; otherwise exactly one token group is returned
+    rets = g.defs().get(0, [])
+    kinds = []
+    for d in rets:
+        if d[0] == "call":
+            e = sh(g.vexpr_call(d[2]))
+            c = {sh(k): v for k, v in _dc(g, d[1], render=g.vexpr_operand).items()}
+            if "collect(" in e and "opt_domains" in e:
+                kinds.append(("dispatch", c.get("std::option::Option::is_some($self.opt_domains)") == 1))
+            elif "box_assume_init_into_vec_unsafe" in e or "from_elem" in e or "into_vec" in e:
+                kinds.append(("single-group", True))
+            else:
+                kinds.append(("?" + e[:60], False))
+        else:
+            kinds.append(("?assign", False))
+    run.ob("C01.1.token-source", "groups:dispatch-or-one", sorted(kinds) == [("dispatch", True), ("single-group", True)],
+           "get_tokens returns either one group per positive domain — only under opt_domains.is_some(), otherwise the "
+           "rule would be stored in no bucket at all — or exactly one group (`vec![tokens]`) "
+           f"({kinds})", config=cfg)
+
+
+def rule_matches_conjunction(run, F, cfg):
+    """a rule matches iff its options AND its pattern match (the reference matcher the index must agree with)"""
+    m = F.fn("<filters::network::NetworkFilter as filters::network::NetworkMatchable>::matches")
+    run.touched(m)
+    from analysis.guards import dominating_conditions as _dc
+    co = m.calls(r"network_matchers::check_options$")
+    cp = m.calls(r"network_matchers::check_pattern$")
+    ok = len(co) == 1 and len(cp) == 1
+    detail = ""
+    if ok:
+        c = _dc(m, cp[0][0], render=m.vexpr_operand)
+        gate = [v for k, v in c.items() if "check_options(" in k]
+        ret = m.expr_local(0)
+        ok = gate == [1] and bool(re.match(r"^φ\{false \| filters::network_matchers::check_pattern\(", ret))
+        detail = f"check_pattern evaluated under check_options == {gate}; result = {ret[:120]}"
+    run.ob("C01.6.rule-matcher", "options-and-pattern", ok,
+           "NetworkFilter::matches is check_options(..) && check_pattern(..): false when the options fail, the "
+           "pattern verdict otherwise", site=m.loc(0), config=cfg, detail=detail)
